@@ -43,23 +43,23 @@ var c10Shapes = []string{"raw-buffered", "raw-unbuffered", "func()", "func()erro
 
 func (c10) Thresholds(tier string) map[string]int64 {
 	th := map[string]int64{
-		"scripts":                         1000,
-		"commands-executed":               2500,
-		"waiting-polls-observed":          3000,
-		"polls-issued-with-gate-closed":   3000,
-		"completion:nil":                  1200,
-		"completion:error":                600,
-		"error-surfaced-exactly-once":     600,
-		"resumed-at-next-statement":       2000,
-		"handler-invoked-exactly-once":    2500,
-		"real-timing-runners":             400,
-		"real-timing-commands":            1500,
+		"scripts":                            1000,
+		"commands-executed":                  2500,
+		"waiting-polls-observed":             3000,
+		"polls-issued-with-gate-closed":      3000,
+		"completion:nil":                     1200,
+		"completion:error":                   600,
+		"error-surfaced-exactly-once":        600,
+		"resumed-at-next-statement":          2000,
+		"handler-invoked-exactly-once":       2500,
+		"real-timing-runners":                400,
+		"real-timing-commands":               1500,
 		"order:handler-returned-before-poll": 50,
 		"order:poll-before-handler-returned": 50,
-		"wait-commands":                   10,
-		"wait-fractional":                 6,
-		"race-detector-enabled-children":  1,
-		"race-canary-reported":            1,
+		"wait-commands":                      10,
+		"wait-fractional":                    6,
+		"race-detector-enabled-children":     1,
+		"race-canary-reported":               1,
 	}
 	for _, s := range c10Shapes {
 		th["shape:"+s] = 150
@@ -305,6 +305,7 @@ func (p c10) gated(c *core.Ctx) {
 	}
 	c.Feature("scripts")
 	var trace []string
+	blockedUnexpectedly := false
 	describe := func() []string {
 		var d []string
 		for _, k := range cmds {
@@ -326,24 +327,38 @@ func (p c10) gated(c *core.Ctx) {
 	// if the call does not return.
 	next := func(pending *c10Cmd) (mon.Obs, bool) {
 		var fired atomic.Bool
-		var t *time.Timer
-		if pending != nil {
-			t = time.AfterFunc(10*time.Second, func() { fired.Store(true); pending.complete() })
-		}
+		// every call runs under the watchdog: if it does not return, all gates are opened so that the
+		// call (and the case) can end; a call that needed that to return had blocked
+		t := time.AfterFunc(10*time.Second, func() {
+			fired.Store(true)
+			for _, k := range cmds {
+				k.complete()
+			}
+		})
 		o := rr.Once(int(r.U64() % 5))
-		if t != nil {
-			t.Stop()
-		}
+		t.Stop()
 		trace = append(trace, "Next = "+o.String())
+		if fired.Load() && pending == nil {
+			blockedUnexpectedly = true
+		}
 		return o, fired.Load()
 	}
 	pendingPolls := 0
 	i := 0
 	var o mon.Obs
+	defer func() {
+		if blockedUnexpectedly && !c.Failed() {
+			fail("a call of Next blocked (it returned only after the 10 s watchdog released every handler)")
+		}
+	}()
 	have := false // o holds an observation not consumed yet
 	for i < len(items) {
 		if !have {
 			o, _ = next(nil)
+		}
+		if blockedUnexpectedly {
+			fail("a call of Next blocked while a handler was running (it returned only after the 10 s watchdog released every handler)")
+			return
 		}
 		have = false
 		// walk the items this observation accounts for
